@@ -29,7 +29,7 @@ func init() {
 	core.Register(&core.Check{
 		ID: "C12", Level: "exploration",
 		Technique: "repetition comparator: byte digests of json.Marshal(Do(...)) and of ValidateDocument(...).Errors for the same request, repeated R times inside one process interleaved with other requests (direct and through a PlanCache), and across P fresh child processes (different hash seeds, different schema construction orders); the parent compares the digests of all processes",
-		Rule: "every child runs the SAME seed-determined request list: valid requests with several failing fields and failing thunks, invalid requests with several equally good suggestions / several bad input fields, introspection queries, mutations with thunks; non-trivial: response contains >= 2 errors, or a suggestion list, or an introspection list with >= 2 members; distinct by hash(request)",
+		Rule:      "every child runs the SAME seed-determined request list: valid requests with several failing fields and failing thunks, invalid requests with several equally good suggestions / several bad input fields, introspection queries, mutations with thunks; non-trivial: response contains >= 2 errors, or a suggestion list, or an introspection list with >= 2 members; distinct by hash(request)",
 		Assumptions: []string{
 			"json.Marshal sorts object keys, so key order inside data objects is not observable; list and error order is",
 			"R repetitions expose a k-way reorderable output with probability >= 1-(1/k!)^(R-1) per process",
@@ -147,7 +147,7 @@ func introspectionRequests(m *model.Schema) []request {
 
 func run(c *core.Child) {
 	nSchemas := c.Scale(3, 10)
-	nDocs := c.Scale(25, 80)
+	nDocs := c.Scale(40, 100)
 	R := c.Scale(12, 40)
 	for si := 0; si < nSchemas; si++ {
 		sr := sharedRNG(c, 1, uint64(si))
@@ -178,13 +178,21 @@ func run(c *core.Child) {
 			if op.Name != nil {
 				opName = op.Name.Value
 			}
-			vars := typedoc.Assignment(dr, m, d, op, dr.U64())
-			table := &values.Outcomes{Seed: dr.U64(), Density: dr.Range(15, 50), Kinds: []values.Kind{values.Nil, values.Error, values.PanicError, values.ThunkValue, values.ThunkError, values.ThunkError, values.ThunkValue}}
 			cls := "typed"
 			if op.Op == "mutation" {
 				cls = "typed-mutation"
 			}
-			reqs = append(reqs, request{class: cls, text: text, op: opName, vars: vars, o: table})
+			// the same text with several variable assignments and outcome tables:
+			// requests that share a cached plan but must not share a response
+			for k := 0; k < 3; k++ {
+				vars := typedoc.Assignment(dr, m, d, op, dr.U64())
+				table := &values.Outcomes{Seed: dr.U64(), Density: dr.Range(15, 50), Kinds: []values.Kind{values.Nil, values.Error, values.PanicError, values.ThunkValue, values.ThunkError, values.ThunkError, values.ThunkValue}}
+				if k == 2 {
+					// deferred failures everywhere: error order is decided by the order deferred values are forced in
+					table = &values.Outcomes{Seed: dr.U64(), Density: 70, Kinds: []values.Kind{values.ThunkError, values.ThunkError, values.ThunkValue}}
+				}
+				reqs = append(reqs, request{class: cls, text: text, op: opName, vars: vars, o: table})
+			}
 		}
 		reqs = append(reqs, invalidRequests(sharedRNG(c, 3, uint64(si)), m, c.Scale(30, 100))...)
 		reqs = append(reqs, introspectionRequests(m)...)
